@@ -541,6 +541,15 @@ def run_shard(ctx: ShardCtx) -> ShardResult:
     env = AppEnv()
     try:
         env.add_fixture_stream('bbb')
+        # a second stream whose encrypted tracks do not share one IV size: video 8 byte IVs (as stored), audio
+        # re-packaged with 16 byte IVs (per-track IV size must come from each track's own tenc)
+        from dlv import synth
+        from dlv.appenv import FIXTURES
+        fx = FIXTURES / 'bbb'
+        env.add_stream('miv', title='Synthetic: mixed IV sizes', files={
+            'miv_v7': (fx / 'bbb_v7.mp4').read_bytes(), 'miv_v7_enc': (fx / 'bbb_v7_enc.mp4').read_bytes(),
+            'miv_a1': (fx / 'bbb_a1.mp4').read_bytes(), 'miv_a1_enc': synth.widen_ivs((fx / 'bbb_a1_enc.mp4').read_bytes())})
+        res.count('synthetic.streams')
         env.clock.install(validator=True)
         # bind asyncio.sleep of the validator to the virtual clock
         import dashlive.mpeg.dash.validator.validator as vmod
@@ -570,6 +579,8 @@ def run_shard(ctx: ShardCtx) -> ShardResult:
             case = gen_case(ctx)
             corrupted = i % 2 == 1
             fault = None
+            if 'drm' in case['params'] and case['params'].get('acodec', 'mp4a') == 'mp4a' and rng.random() < 0.4:
+                case['stream'] = 'miv'
             if replayed:
                 case, fault = replayed['case'], replayed.get('fault')
                 corrupted = fault is not None
@@ -621,6 +632,8 @@ def run_shard(ctx: ShardCtx) -> ShardResult:
                 if out.get('applied'):
                     res.count('faults.after_refresh_applied')
             res.evaluations += 1
+            if case['stream'] == 'miv':
+                res.count('sessions.mixed_iv_sizes')
             rp = {'case': case, 'fault': fault, 'after_refresh': after_refresh, 'pick': pick}
             sig = (f'{case["manifest"]}|{case["mode"]}|{"tl" if case["params"].get("timeline") == "1" else "num"}|'
                    f'{"drm" if "drm" in case["params"] else "clear"}|{"patch" if "patch" in case["params"] else ""}')
